@@ -19,7 +19,8 @@ def load_cfg(prop):
            "harness_bin": os.path.join(WORK, "bin", mod.HARNESS),
            "harness_args": getattr(mod, "HARNESS_ARGS", []),
            "groups": getattr(mod, "CONST_GROUPS", []),
-           "timeout": getattr(mod, "TIMEOUT", 3600)}
+           "timeout": getattr(mod, "TIMEOUT", 3600), "stall": getattr(mod, "STALL", 90),
+           "rss_limit": getattr(mod, "RSS_LIMIT", 4 << 30)}
     return cfg
 
 
